@@ -23,6 +23,7 @@ import (
 	"hash/fnv"
 	"net"
 	"os"
+	"sync"
 	"time"
 	_ "unsafe" // go:linkname
 
@@ -48,6 +49,8 @@ func h64(seed int64, s string) uint64 {
 	return h.Sum64()
 }
 
+const raceLoops = 200
+
 type genLine struct {
 	Lim   string `json:"lim"`
 	Steps []step `json:"steps"`
@@ -68,6 +71,7 @@ type shape struct {
 	attach            bool
 	sendS, sendT      bool
 	lastGate, hasGate bool
+	endBeforeAttach   bool // an end closed or failed before the target was attached
 }
 
 func shapeOf(g *genLine) shape {
@@ -92,6 +96,9 @@ func shapeOf(g *genLine) shape {
 			s.attach = true
 		case "close", "error", "extclose":
 			s.ending = true
+			if !s.attach && st.A != "extclose" {
+				s.endBeforeAttach = true
+			}
 		case "arm", "glitch":
 			s.fault = true
 		case "replace", "closeold":
@@ -105,7 +112,7 @@ func shapeOf(g *genLine) shape {
 
 // keepPermille: share of the enumerated scripts outside the core set that is driven (seeded choice).
 func keepPermille(env *fw.Env, src string) uint64 {
-	q := map[string]uint64{"gen:S1": 14, "gen:S2": 12, "gen:repl": 40, "gen:S2full": 10}[src]
+	q := map[string]uint64{"gen:S1": 12, "gen:S2": 10, "gen:repl": 30, "gen:S2full": 10}[src]
 	if q == 0 {
 		return 1000 // simulation output is driven entirely
 	}
@@ -115,12 +122,26 @@ func keepPermille(env *fw.Env, src string) uint64 {
 	return q
 }
 
+var (
+	seenMu sync.Mutex
+	seen   = map[string]bool{}
+)
+
 func expand(env *fw.Env, src string, raw json.RawMessage) []json.RawMessage {
 	var g genLine
 	if err := json.Unmarshal(raw, &g); err != nil {
 		panic(err)
 	}
-	h := h64(env.Seed, string(raw))
+	// TLC's ToJson does not fix the order of record fields: hash (and de-duplicate) the canonical form
+	canon := string(fw.MustJSON(g))
+	seenMu.Lock()
+	dup := seen[src+canon]
+	seen[src+canon] = true
+	seenMu.Unlock()
+	if dup {
+		return nil
+	}
+	h := h64(env.Seed, canon)
 	s := shapeOf(&g)
 	if s.timeout {
 		// Start's 30 s wait for the target: one script, thorough tier only
@@ -153,6 +174,15 @@ func expand(env *fw.Env, src string, raw json.RawMessage) []json.RawMessage {
 	// the same script without gates (the copiers race the script), for a share of them
 	if core || (h>>12)%3 == 0 {
 		out = append(out, mk("free", 1))
+		// Scripts in which an end is already closed / failed when the target attaches make one copier
+		// finish (and Bridge.Close run) while the other goroutine is still starting: a scheduling race
+		// no gate can pin down. They are executed raceLoops times (cheap: unpaced, ~1 ms each).
+		if s.endBeforeAttach && !paced {
+			var b beh
+			json.Unmarshal(out[len(out)-1], &b)
+			b.Loops = raceLoops
+			out[len(out)-1] = fw.MustJSON(b)
+		}
 	}
 	return out
 }
@@ -251,6 +281,20 @@ func selfTest(env *fw.Env, accepted []*fw.Trace) []*fw.Trace {
 	return out
 }
 
+// limiterSplits probes the real code: does a read larger than the limiter's burst end the tunnel
+// (as found) or is the wait split? Used only to pick the generator's model variant.
+func limiterSplits(env *fw.Env) bool {
+	probe := beh{Lim: "tiny", Mode: "free", Via: "conn", FinE: "S", FinK: "close", Big: 2 * copyBuf,
+		Steps: []step{{A: "attach"}, {A: "send", E: "S", C: "B"}}}
+	t := drive(env, fw.Behaviour{Data: fw.MustJSON(probe)})
+	for _, e := range t.Events {
+		if e["ev"] == "Drain" {
+			return e["ok"] == true
+		}
+	}
+	return false
+}
+
 func main() {
 	corelog.SetDefault(corelog.NewNopLogger())
 	if len(os.Args) > 1 && os.Args[1] == "--worker" {
@@ -267,24 +311,35 @@ func main() {
 				return fw.TLCJob{Name: name, Module: "Bridge", Cfg: cfg, Timeout: 14 * time.Minute,
 					Consts: map[string]string{"MAXS": maxs, "REPL": repl, "CLS": c}}
 			}
+			small := `{"one", "Bp1"}`
 			if env.Tier == "thorough" {
 				return []fw.TLCJob{
 					mc("mc:as-found(S=2,replace)", "Bridge_mc.cfg", "2", "TRUE", cls),
+					mc("mc:as-found(S=3)", "Bridge_mc.cfg", "3", "FALSE", cls),
 					mc("mc:split-limiter(S=2,replace)", "Bridge_fixed.cfg", "2", "TRUE", cls),
 					mc("live:as-found(S=1,replace)", "Bridge_live.cfg", "1", "TRUE", cls),
-					mc("live:as-found(S=2)", "Bridge_live.cfg", "2", "FALSE", `{"one", "Bp1"}`),
+					mc("live:as-found(S=2)", "Bridge_live.cfg", "2", "FALSE", cls),
 				}
 			}
 			return []fw.TLCJob{
-				mc("mc:as-found(S=2)", "Bridge_mc.cfg", "2", "FALSE", cls),
-				mc("mc:as-found(S=1,replace)", "Bridge_mc.cfg", "1", "TRUE", cls),
-				mc("live:as-found(S=1,replace)", "Bridge_live.cfg", "1", "TRUE", `{"one", "Bp1"}`),
+				mc("mc:as-found(S=2,replace,{1,32K+1})", "Bridge_mc.cfg", "2", "TRUE", small),
+				mc("mc:as-found(S=1)", "Bridge_mc.cfg", "1", "FALSE", cls),
+				mc("mc:split-limiter(S=1)", "Bridge_fixed.cfg", "1", "FALSE", cls),
+				mc("live:as-found(S=1,{1,32K+1})", "Bridge_live.cfg", "1", "FALSE", small),
 			}
 		},
 		GenJobs: func(env *fw.Env) []fw.TLCJob {
+			// The scripts carry the copier steps the model predicts; after a read that exceeds the
+			// limiter's burst the as-found model ends the tunnel, the split-wait model goes on to Write.
+			// A probe on the real code decides which of the two (both are model-checked above) the
+			// generator follows, so that gated scripts stay in step with the code they run on.
+			devlim := "TRUE"
+			if limiterSplits(env) {
+				devlim = "FALSE"
+			}
 			gen := func(name, maxs, lims, c, faults, repl, ext string) fw.TLCJob {
 				return fw.TLCJob{Name: name, Module: "Bridge", Cfg: "Bridge_gen.cfg", Workers: 4,
-					Consts: map[string]string{"MAXS": maxs, "LIMS": lims, "CLS": c, "FAULTS": faults, "REPL": repl, "EXT": ext}}
+					Consts: map[string]string{"MAXS": maxs, "LIMS": lims, "CLS": c, "FAULTS": faults, "REPL": repl, "EXT": ext, "DEVLIM": devlim}}
 			}
 			sim := func(n int) fw.TLCJob {
 				j := gen("sim:S3", "3", all, cls, "TRUE", "FALSE", "TRUE")
